@@ -65,7 +65,7 @@ def build(extra_checks=None, extra_engines=None, pending=None):
             source_commits=[], add_only=True),
         engines=engines,
         checks=[],
-        notes='All checks are ./check <id> (VERIF_TIER=quick|thorough, VERIF_SEED=<int>); exit 0 held, 1 VIOLATION, 2 harness error, 3 timeout. Genuine defects found and repaired are listed in known_findings.json (11 fix: commits in /repo, status fixed; one status known for C07). ./check selftest = determinism self-test; tools/run_mutants.sh = planted mutants; seeded/ = 39 independently seeded changes with the checks that catch them. See DESIGN.md sections 16-19.',
+        notes='All checks are ./check <id> (VERIF_TIER=quick|thorough, VERIF_SEED=<int>); exit 0 held, 1 VIOLATION, 2 harness error, 3 timeout. Genuine defects found and repaired are listed in known_findings.json (11 fix: commits in /repo, status fixed; one status known for C07). ./check selftest = determinism self-test; tools/run_mutants.sh = planted mutants; seeded/ = 50 independently seeded changes (3 rounds) with the checks that catch them. See DESIGN.md sections 16-19.',
         not_applicable=[dict(property_id=k, reason=v) for k, v in sorted(NA.items())] +
         [dict(property_id=k, reason=v) for k, v in sorted((pending if pending is not None else PENDING).items())],
     )
